@@ -245,6 +245,7 @@ type Call struct {
 	Info  []string `json:"info,omitempty"` // harness-side complaints about ResolveInfo/context
 	RtStr string   `json:"-"`              // observed: printed Info.ReturnType
 	VV    string   `json:"-"`              // observed: canonical Info.VariableValues
+	Oc    string   `json:"-"`              // observed: the scripted outcome kind this invocation delivered
 }
 
 // TCall is one type-resolver invocation.
